@@ -89,6 +89,11 @@ func (sp *spec) variants(enc []byte) []variant {
 		{"another-encoding", "suffix", nil, other},
 		{"another-encoding+random", "suffix", nil, exact(other, rbytes(rng, 1+rng.IntN(8)))},
 	}
+	// a long tail: more than a 16-bit count can describe follows the encoding (every 64th case; the
+	// decoder must still take exactly its own bytes)
+	if sp.n%64 == 5 {
+		vs = append(vs, variant{"64k-zeros", "suffix", nil, fill(65536+sp.n%7, 0x00)}, variant{"64k-ones", "suffix", nil, fill(65537, 0xFF)}, variant{"70k-pattern", "suffix", nil, rbytes(rng, 70000)})
+	}
 	// deterministic single-byte boundary suffixes, cycled so that every type sees each
 	switch sp.n % 4 {
 	case 0:
